@@ -422,6 +422,76 @@ func (an *accAn) localCell(al *ssa.Alloc, c *accCtx, depth int) string {
 	return ""
 }
 
+// unlockValue: v is a func value whose call IS the release of one mutex cell: the bound-method closure of
+// (*sync.Mutex).Unlock / (*sync.RWMutex).Unlock / RUnlock on an address rooted in a cell (`m.mu.Unlock` as a value), or
+// the result of a static call of a library function every return of which is such a closure on the same cell, the
+// callee's parameters bound to this call's arguments (`unlock := g.guard()`).  summary: the address names several objects.
+func (an *accAn) unlockValue(v ssa.Value, c *accCtx, depth int) (cell, method string, summary bool) {
+	if v == nil || depth > 4 {
+		return "", "", false
+	}
+	switch x := v.(type) {
+	case *ssa.MakeClosure:
+		fn, ok := x.Fn.(*ssa.Function)
+		if !ok || len(x.Bindings) != 1 || !strings.HasSuffix(fn.Name(), "$bound") {
+			return "", "", false
+		}
+		mo, _ := fn.Object().(*types.Func)
+		if mo == nil {
+			return "", "", false
+		}
+		switch mo.FullName() {
+		case "(*sync.Mutex).Unlock", "(*sync.RWMutex).Unlock":
+			method = "Unlock"
+		case "(*sync.RWMutex).RUnlock":
+			method = "RUnlock"
+		default:
+			return "", "", false
+		}
+		if cell = an.cellOf(x.Bindings[0], c, 0); cell == "" {
+			return "", "", false
+		}
+		return cell, method, summaryAddr(x.Bindings[0], 0)
+	case *ssa.Call:
+		sc := x.Common().StaticCallee()
+		if sc == nil || an.libPkgs[sc.Pkg] == "" || len(sc.Blocks) == 0 || sc.Recover != nil {
+			return "", "", false
+		}
+		if _, isFunc := x.Type().Underlying().(*types.Signature); !isFunc {
+			return "", "", false
+		}
+		nc := &accCtx{bind: map[ssa.Value]string{}}
+		for i, a := range x.Common().Args {
+			if i < len(sc.Params) {
+				if ac := an.cellOf(a, c, 0); ac != "" {
+					nc.bind[sc.Params[i]] = ac
+				}
+			}
+		}
+		an.bindClosure(x.Common().Value, sc, c, nc)
+		n := 0
+		for _, b := range sc.Blocks {
+			for _, ins := range b.Instrs {
+				ret, ok := ins.(*ssa.Return)
+				if !ok {
+					continue
+				}
+				if len(ret.Results) != 1 {
+					return "", "", false
+				}
+				rc, rm, rs := an.unlockValue(ret.Results[0], nc, depth+1)
+				if rc == "" || (n > 0 && (rc != cell || rm != method)) {
+					return "", "", false
+				}
+				cell, method, summary = rc, rm, summary || rs
+				n++
+			}
+		}
+		return cell, method, summary
+	}
+	return "", "", false
+}
+
 // cellOf: the cell an address or a loaded reference value belongs to ("" if not rooted in package-level state)
 func (an *accAn) cellOf(v ssa.Value, c *accCtx, depth int) string {
 	if depth > 12 || v == nil {
@@ -814,6 +884,11 @@ func (an *accAn) instr(f *ssa.Function, c *accCtx, ins ssa.Instruction, held map
 		if m, ok := lockMethod(x.Common()); ok && (m == "Unlock" || m == "RUnlock") {
 			return // released at function exit
 		}
+		if x.Common().StaticCallee() == nil && !x.Common().IsInvoke() {
+			if cell, _, _ := an.unlockValue(x.Common().Value, c, 0); cell != "" {
+				return // defer unlock() for unlock := g.guard(): released at function exit
+			}
+		}
 		if emit {
 			an.call(f, c, ins, x.Common(), held, after, emit)
 		}
@@ -835,6 +910,14 @@ func (an *accAn) instr(f *ssa.Function, c *accCtx, ins ssa.Instruction, held map
 				}
 			}
 			return
+		}
+		if cc.StaticCallee() == nil && !cc.IsInvoke() {
+			// unlock() for unlock := g.guard() / unlock := m.mu.Unlock: the call is the Unlock of the cell
+			if cell, _, _ := an.unlockValue(cc.Value, c, 0); cell != "" {
+				rec(cell, true, "sync", "")
+				delete(held, cell)
+				return
+			}
 		}
 		an.call(f, c, ins, cc, held, after, emit)
 		// what the callee does to the locks: a lock helper returns with the lock taken, an unlock helper releases it
@@ -1141,7 +1224,9 @@ func (an *accAn) lockEffect(f *ssa.Function, bind map[ssa.Value]string, depth in
 						deferred[k] = true
 					}
 				} else if dc.StaticCallee() == nil && !dc.IsInvoke() {
-					if _, isBuiltin := dc.Value.(*ssa.Builtin); !isBuiltin {
+					if cell, _, _ := an.unlockValue(dc.Value, c, 0); cell != "" {
+						deferred[cell] = true
+					} else if _, isBuiltin := dc.Value.(*ssa.Builtin); !isBuiltin {
 						deferredAll = true
 					}
 				}
@@ -1202,7 +1287,10 @@ func (an *accAn) lockEffect(f *ssa.Function, bind map[ssa.Value]string, depth in
 						x.gen[k] = m
 					}
 				} else if cc.StaticCallee() == nil && !cc.IsInvoke() {
-					if _, isBuiltin := cc.Value.(*ssa.Builtin); !isBuiltin {
+					if cell, _, _ := an.unlockValue(cc.Value, c, 0); cell != "" {
+						delete(x.gen, cell)
+						x.kill[cell] = true
+					} else if _, isBuiltin := cc.Value.(*ssa.Builtin); !isBuiltin {
 						// a function value: it may be anything of the library, also an unlock helper
 						x.killAll = true
 						x.gen = map[string]string{}
